@@ -27,8 +27,8 @@ use nverif::*;
 use serde_json::{json, Value};
 use tensor_chain::block::{Block, BlockHeader};
 use tensor_chain::network::{
-    AppendEntries, AppendEntriesResponse, LogEntry, MemoryTransport, Message, PreVoteResponse,
-    RequestVote, RequestVoteResponse,
+    AppendEntries, AppendEntriesResponse, LogEntry, MemoryTransport, Message, PreVote, PreVoteResponse,
+    RequestVote, RequestVoteResponse, TimeoutNow,
 };
 use tensor_chain::raft::{RaftConfig, RaftNode, RaftState};
 use tensor_chain::{serialize_entries, RaftRecoveryState, RaftWal, RaftWalEntry, SnapshotBufferConfig, SnapshotMetadata};
@@ -38,10 +38,10 @@ const SELF_ID: u64 = 0;
 const NPEERS: u64 = 4;
 
 fn nid(k: u64) -> String {
-    format!("n{k}")
+    k.to_string()
 }
 fn nid_num(s: &str) -> u64 {
-    s.strip_prefix('n').and_then(|x| x.parse().ok()).unwrap_or(77)
+    s.parse().unwrap_or(77)
 }
 
 fn mk_block(height: u64) -> Block {
@@ -199,6 +199,19 @@ fn role_tok(n: &RaftNode) -> &'static str {
     }
 }
 
+/// volatile election state through `RaftNode::verif_dump` (cfg neumann_verif):
+/// (voted_for, "l=<current_leader> pv=<in_pre_vote> votes=<ids> pvotes=<ids>")
+fn dump_fields(n: &RaftNode) -> (String, String) {
+    let d = n.verif_dump();
+    let get = |k: &str| -> String {
+        d.split(' ').find_map(|f| f.strip_prefix(&format!("{k}="))).unwrap_or("?").to_string()
+    };
+    (get("v"), format!("l={} pv={} votes={} pvotes={}", get("l"), get("pv"), get("votes"), get("pvotes")))
+}
+fn in_pre_vote(n: &RaftNode) -> bool {
+    dump_fields(n).1.contains("pv=1")
+}
+
 fn log_tok(l: &[Ent]) -> String {
     list_or_dash(&l.iter().map(|(i, t, c)| format!("{i}:{t}:{c}")).collect::<Vec<_>>())
 }
@@ -220,7 +233,7 @@ fn probe_voted(n: &RaftNode) -> String {
             Some(Message::RequestVoteResponse(RequestVoteResponse { vote_granted: true, .. }))
         )
     };
-    if ask("n99") {
+    if ask("99") {
         return "-".into();
     }
     for k in 0..=NPEERS {
@@ -237,8 +250,11 @@ fn probe_voted(n: &RaftNode) -> String {
 enum Ev {
     Elect,
     Rv { t: u64, c: u64, li: u64, lt: u64 },
-    Rvr { t: u64 },
-    Pvr { t: u64, pre: bool },
+    Rvr { from: u64, t: u64, g: bool },
+    PreStart,
+    PreVote { t: u64, c: u64, li: u64, lt: u64 },
+    Pvr { from: u64, t: u64, g: bool },
+    TNow { from: u64, t: u64, l: u64 },
     Lead,
     Ae { t: u64, l: u64, pi: u64, pt: u64, ents: Vec<(u64, u64)> },
     Aer { t: u64 },
@@ -256,8 +272,11 @@ impl Ev {
         match self {
             Ev::Elect => "ev elect".into(),
             Ev::Rv { t, c, li, lt } => format!("ev rv {t} {c} {li} {lt}"),
-            Ev::Rvr { t } => format!("ev rvr {t}"),
-            Ev::Pvr { t, pre } => format!("ev pvr {t} {}", u8::from(*pre)),
+            Ev::Rvr { from, t, g } => format!("ev rvr {from} {t} {}", u8::from(*g)),
+            Ev::PreStart => "ev prestart".into(),
+            Ev::PreVote { t, c, li, lt } => format!("ev pv {t} {c} {li} {lt}"),
+            Ev::Pvr { from, t, g } => format!("ev pvr {from} {t} {}", u8::from(*g)),
+            Ev::TNow { from, t, l } => format!("ev tnow {from} {t} {l}"),
             Ev::Lead => "ev lead".into(),
             Ev::Ae { t, l, pi, pt, ents } => format!("ev ae {t} {l} {pi} {pt} {}", pairs_tok(ents)),
             Ev::Aer { t } => format!("ev aer {t}"),
@@ -270,7 +289,10 @@ impl Ev {
             Ev::Elect => "elect",
             Ev::Rv { .. } => "request_vote",
             Ev::Rvr { .. } => "vote_response",
+            Ev::PreStart => "start_pre_vote",
+            Ev::PreVote { .. } => "pre_vote",
             Ev::Pvr { .. } => "prevote_response",
+            Ev::TNow { .. } => "timeout_now",
             Ev::Lead => "become_leader",
             Ev::Ae { .. } => "append_entries",
             Ev::Aer { .. } => "append_response",
@@ -338,7 +360,6 @@ impl Ghost {
 
 struct Live {
     node: RaftNode,
-    in_pre: bool,
 }
 
 /// run one event on the real node; returns the canonical reply
@@ -362,22 +383,37 @@ fn apply_real(lv: &mut Live, ev: &Ev) -> String {
                 _ => "?".into(),
             }
         }
-        Ev::Rvr { t } => {
-            let r = RequestVoteResponse { term: *t, vote_granted: false, voter_id: nid(1) };
-            n.handle_message(&nid(1), &Message::RequestVoteResponse(r));
+        Ev::Rvr { from, t, g } => {
+            let r = RequestVoteResponse { term: *t, vote_granted: *g, voter_id: nid(*from) };
+            n.handle_message(&nid(*from), &Message::RequestVoteResponse(r));
             "none".into()
         }
-        Ev::Pvr { t, pre } => {
-            if *pre && !lv.in_pre {
-                n.start_pre_vote();
-                lv.in_pre = true;
+        Ev::PreStart => {
+            n.start_pre_vote();
+            "none".into()
+        }
+        Ev::PreVote { t, c, li, lt } => {
+            let pv = PreVote {
+                term: *t,
+                candidate_id: nid(*c),
+                last_log_index: *li,
+                last_log_term: *lt,
+                state_embedding: SparseVector::new(0),
+            };
+            match n.handle_message(&nid(*c), &Message::PreVote(pv)) {
+                // `vote_granted` depends on the time since the last heartbeat: not compared
+                Some(Message::PreVoteResponse(r)) => format!("prevote:{}", r.term),
+                _ => "?".into(),
             }
-            let before = n.current_term();
-            let r = PreVoteResponse { term: *t, vote_granted: false, voter_id: nid(2) };
-            n.handle_message(&nid(2), &Message::PreVoteResponse(r));
-            if n.current_term() != before {
-                lv.in_pre = false;
-            }
+        }
+        Ev::Pvr { from, t, g } => {
+            let r = PreVoteResponse { term: *t, vote_granted: *g, voter_id: nid(*from) };
+            n.handle_message(&nid(*from), &Message::PreVoteResponse(r));
+            "none".into()
+        }
+        Ev::TNow { from, t, l } => {
+            let tn = TimeoutNow { term: *t, leader_id: nid(*l) };
+            n.handle_message(&nid(*from), &Message::TimeoutNow(tn));
             "none".into()
         }
         Ev::Lead => {
@@ -606,8 +642,18 @@ fn gen_event(r: &mut Rng, lv: &Live) -> Ev {
                 };
                 return Ev::Rv { t: term_near(r), c: 1 + r.below(NPEERS), li, lt };
             }
-            30..=35 => return Ev::Rvr { t: term_near(r) },
-            36..=41 => return Ev::Pvr { t: term_near(r), pre: lv.in_pre || r.chance(2, 3) },
+            30..=35 => {
+                // while a candidate: mostly votes of the current term (a quorum makes it leader)
+                let t = if role == RaftState::Candidate && r.chance(2, 3) { cur } else { term_near(r) };
+                return Ev::Rvr { from: 1 + r.below(NPEERS), t, g: r.chance(2, 3) };
+            }
+            36..=41 => {
+                if !in_pre_vote(n) && r.chance(1, 2) {
+                    return Ev::PreStart;
+                }
+                let t = if in_pre_vote(n) && r.chance(2, 3) { cur } else { term_near(r) };
+                return Ev::Pvr { from: 1 + r.below(NPEERS), t, g: r.chance(2, 3) };
+            }
             42..=49 => {
                 if role == RaftState::Candidate || r.chance(1, 8) {
                     return Ev::Lead;
@@ -661,7 +707,9 @@ fn gen_event(r: &mut Rng, lv: &Live) -> Ev {
                 }
                 return Ev::Ae { t, l: 1 + r.below(NPEERS), pi, pt, ents };
             }
-            85..=88 => return Ev::Aer { t: term_near(r) },
+            85..=86 => return Ev::Aer { t: term_near(r) },
+            87 => return Ev::TNow { from: 1 + r.below(NPEERS), t: if r.chance(3, 4) { cur } else { term_near(r) }, l: 1 + r.below(NPEERS) },
+            88 => return Ev::PreVote { t: term_near(r), c: 1 + r.below(NPEERS), li: r.below(len + 2), lt: r.below(cur + 2) },
             89..=93 => return gen_snap(r, cur, &log),
             _ => {
                 if role == RaftState::Leader || r.chance(1, 6) {
@@ -685,10 +733,6 @@ struct Ctx<'a> {
     rep: &'a mut Report,
     seen: HashSet<Vec<u8>>,
     thorough: bool,
-    rot_observed: bool,
-    walfail_observed: bool,
-    fixed_append: bool,
-    fixed_rotation: bool,
     /// how many more failing handler calls may go through `persist_term_and_vote`'s retry sleeps
     slow_budget: u64,
 }
@@ -746,11 +790,8 @@ impl FailCfg {
     }
 }
 
-/// Candidate finding, pending the coordinator's decision (I/O failures are outside C10's crash-only
-/// quantifier): reported through `observe`, and the model runs the code as it is (`evf` = stepFail),
-/// unless the harness runs with `--fixed-append` (to be added to areas/C10.json `harness_args` when
-/// /verif/proposed/C10-append-entries-persist-first.diff is applied: the model then runs `evfx` =
-/// stepFailFixed and a lost acknowledged entry is a violation).
+/// Fixed by 54033160 (append_leader_entries persists before it changes memory). An acknowledged entry
+/// missing after a restart in a history with failed appends is reported under this class.
 const WALFAIL_CLASS: &str = "tensor_chain.raft.append_leader_entries/unlogged_entry_acknowledged_after_wal_failure";
 
 /// Would this handler call reach `persist_term_and_vote` (three attempts, 100 + 200 ms of sleep when
@@ -760,8 +801,10 @@ fn is_slow_fail(ev: &Ev, lv: &Live) -> bool {
     match ev {
         Ev::Elect => true,
         Ev::Rv { t, .. } => *t >= cur,
-        Ev::Rvr { t } => *t > cur && lv.node.state() == RaftState::Candidate,
-        Ev::Pvr { t, pre } => *t > cur && (*pre || lv.in_pre),
+        Ev::Rvr { t, .. } => *t > cur && lv.node.state() == RaftState::Candidate,
+        Ev::Pvr { t, g, .. } => in_pre_vote(&lv.node) && (*t > cur || (*g && *t == cur)),
+        Ev::TNow { t, .. } => *t == cur,
+        Ev::PreStart | Ev::PreVote { .. } => false,
         Ev::Aer { t } => *t > cur && lv.node.state() == RaftState::Leader,
         Ev::Ae { t, .. } => *t > cur,
         Ev::Snap { lt, .. } => *lt > cur,
@@ -825,7 +868,7 @@ fn run_case(cx: &mut Ctx, r: &mut Rng, case_no: u64, max_crashes: usize, script:
     cx.m.ask("drop_slots");
     cx.seen.clear();
     cx.m.ask(&format!("node {SELF_ID}"));
-    let mut lv = Live { node: mk_node(&path).expect("fresh wal"), in_pre: false };
+    let mut lv = Live { node: mk_node(&path).expect("fresh wal") };
     let mut ghost = Ghost::default();
     let mut base_slot: usize = cx.m.ask("save").parse().unwrap_or(0);
     let mut history: Vec<Value> = vec![];
@@ -863,6 +906,7 @@ fn run_case(cx: &mut Ctx, r: &mut Rng, case_no: u64, max_crashes: usize, script:
             let before = std::fs::read(&path).unwrap_or_default();
             let nb = frames(&before).len();
             let term_before = lv.node.current_term();
+            let role_before = lv.node.state();
             let log_before = node_log(&lv.node);
             if failing {
                 had_fail = true;
@@ -921,12 +965,28 @@ fn run_case(cx: &mut Ctx, r: &mut Rng, case_no: u64, max_crashes: usize, script:
                         }
                     }
                 }
-                Ev::Rvr { .. } | Ev::Pvr { .. } | Ev::Aer { .. } => {
+                Ev::Rvr { .. } | Ev::Pvr { .. } | Ev::Aer { .. } | Ev::TNow { .. } => {
                     if term != term_before {
                         ghost.acted = ghost.acted.max(term);
                     }
+                    // a quorum of pre-votes / a TimeoutNow starts an election: vote for itself
+                    if term == term_before + 1
+                        && new_recs.iter().any(|x| matches!(x, RaftWalEntry::TermAndVote { term: rt, voted_for: Some(v) } if *rt == term && *v == nid(SELF_ID)))
+                        && lv.node.state() == RaftState::Candidate
+                    {
+                        ghost.votes.insert((term, SELF_ID));
+                        cx.rep.hit(if matches!(ev, Ev::TNow { .. }) { "branch.election_by_timeout_now" } else { "branch.election_by_prevote_quorum" });
+                    }
+                    if matches!(ev, Ev::Rvr { .. }) && role_before == RaftState::Candidate && lv.node.state() == RaftState::Leader {
+                        cx.rep.hit("branch.leader_by_vote_quorum");
+                    }
                 }
-                Ev::Lead => {}
+                Ev::PreVote { .. } => {
+                    if let Some(rt) = reply.strip_prefix("prevote:") {
+                        ghost.acted = ghost.acted.max(rt.parse().unwrap_or(0));
+                    }
+                }
+                Ev::Lead | Ev::PreStart => {}
                 Ev::Snap { li, lt, ents, streaming } => {
                     let n = ents.len() as u64;
                     if reply == "snap:1" {
@@ -961,15 +1021,18 @@ fn run_case(cx: &mut Ctx, r: &mut Rng, case_no: u64, max_crashes: usize, script:
                     }
                 }
             }
+            let (voted_now, extra_now) = dump_fields(&lv.node);
             let imp = format!(
-                "recs={} reply={} state={}/{}/{}",
+                "recs={} reply={} state={}/{}/{}/{} {}",
                 list_or_dash(&new_recs.iter().map(rec_tok).collect::<Vec<_>>()),
                 reply,
                 term,
+                voted_now,
                 role_tok(&lv.node),
-                log_tok(&log)
+                log_tok(&log),
+                extra_now
             );
-            let line = if failing { ev.line().replacen("ev ", if cx.fixed_append { "evfx " } else { "evf " }, 1) } else { ev.line() };
+            let line = if failing { ev.line().replacen("ev ", "evf ", 1) } else { ev.line() };
             let mo = cx.m.ask(&line);
             if failing {
                 cx.rep.hit(&format!("fail.{}", ev.tag()));
@@ -977,11 +1040,17 @@ fn run_case(cx: &mut Ctx, r: &mut Rng, case_no: u64, max_crashes: usize, script:
                     cx.rep.disagree("fail.wrote", json!({"history": history, "ev": line}), "the WAL file changed during a handler whose appends must all fail", "unchanged file");
                 }
                 if log.len() != log_before.len() || log.iter().zip(log_before.iter()).any(|(a, b)| a != b) {
-                    cx.rep.hit("fail.memory_log_changed_without_wal");
+                    // what append_leader_entries did before fix 54033160
+                    cx.rep.violation(
+                        WALFAIL_CLASS,
+                        "the in-memory log changed during a handler whose WAL appends all failed",
+                        json!({"case": case_no, "history": history, "ev": line, "log_before": log_tok(&log_before), "log_after": log_tok(&log)}),
+                    );
                 }
             }
-            // the model prints term/voted/role/log; the real node has no votedFor getter (probed at restarts)
-            let mo_cmp = strip_voted(&mo);
+            // votedFor and the volatile election state are read through the verification hook here, and
+            // probed through RequestVote at restarts
+            let mo_cmp = mo.clone();
             history.push(if failing { json!({"phase": phase, "ev": line, "impl": imp, "wal_appends_fail": true}) } else { json!({"phase": phase, "ev": line, "impl": imp}) });
             let h = history.clone();
             cx.rep.compare("node.step", || json!({"history": h}), &imp, &mo_cmp);
@@ -1097,21 +1166,14 @@ fn run_case(cx: &mut Ctx, r: &mut Rng, case_no: u64, max_crashes: usize, script:
                     let term = rn.current_term();
                     let log = node_log(&rn);
                     let voted = probe_voted(&pn);
-                    let imp_node = format!("{}/{}/{}/{}", term, voted, role_tok(&rn), log_tok(&log));
+                    let imp_node = format!("{}/{}/{}/{} {}", term, voted, role_tok(&rn), log_tok(&log), dump_fields(&rn).1);
                     let hist = history.clone();
                     cx.rep.compare("cut.restart", || json!({"history": hist, "cut": n}), &imp_node, &mo_node);
                     for (kind, detail) in obl.check(term, &voted, &log) {
                         let input = json!({"case": case_no, "phase": phase, "history": history, "cut": n, "file_len": file.len(),
                                    "obligations": obl.tok(), "restarted": imp_node});
-                        if had_fail && kind == "lost_entry" && !cx.fixed_append {
+                        if had_fail && kind == "lost_entry" {
                             // an entry held in memory but never logged was acknowledged after a failed append
-                            cx.rep.hit("fail.acked_entry_lost");
-                            if !cx.walfail_observed {
-                                cx.walfail_observed = true;
-                                cx.rep.observe(json!({"candidate_class": WALFAIL_CLASS, "what": detail, "input": input,
-                                    "note": "candidate finding, kept as an observation until the coordinator decides: WAL append failures are outside C10's crash-only quantifier (first occurrence only; see distribution fail.acked_entry_lost)"}));
-                            }
-                        } else if had_fail && kind == "lost_entry" {
                             cx.rep.violation(WALFAIL_CLASS, &detail, input);
                         } else {
                             cx.rep.violation(&violation_class(kind, all_repaired && repaired, after_install), &detail, input);
@@ -1147,7 +1209,7 @@ fn run_case(cx: &mut Ctx, r: &mut Rng, case_no: u64, max_crashes: usize, script:
         history.push(json!({"phase": phase, "crash_at_byte": n, "file_len": file.len(), "whole_records": k}));
         match mk_node(&path) {
             Ok(nn) => {
-                lv = Live { node: nn, in_pre: false };
+                lv = Live { node: nn };
             }
             Err(e) => {
                 let nonempty = obl.acted > 0 || !obl.votes.is_empty() || !obl.acked.is_empty();
@@ -1185,18 +1247,6 @@ fn run_case(cx: &mut Ctx, r: &mut Rng, case_no: u64, max_crashes: usize, script:
     if cx.rep.samples.len() < 4 || (stream == "snapshot" && cx.rep.samples.len() < 6) {
         cx.rep.sample(json!({"stream": stream, "history": history.iter().take(12).collect::<Vec<_>>()}));
     }
-}
-
-fn strip_voted(model_ev_answer: &str) -> String {
-    // "... state=<term>/<voted>/<role>/<log>" → drop <voted>
-    if let Some(pos) = model_ev_answer.find(" state=") {
-        let (a, b) = model_ev_answer.split_at(pos + 7);
-        let parts: Vec<&str> = b.splitn(4, '/').collect();
-        if parts.len() == 4 {
-            return format!("{a}{}/{}/{}", parts[0], parts[2], parts[3]);
-        }
-    }
-    model_ev_answer.to_string()
 }
 
 fn rec_kind(e: &RaftWalEntry) -> &'static str {
@@ -1446,7 +1496,21 @@ fn fail_scripts() -> Vec<(Vec<Ev>, Vec<bool>)> {
             (Ev::Prop { c: 33 }, false),
         ],
         // candidate sees a higher term while the WAL fails: stays candidate in its term
-        vec![(Ev::Elect, false), (Ev::Rvr { t: 7 }, true), (Ev::Rvr { t: 7 }, false)],
+        vec![(Ev::Elect, false), (Ev::Rvr { from: 1, t: 7, g: false }, true), (Ev::Rvr { from: 1, t: 7, g: false }, false)],
+        // a quorum of pre-votes while the WAL fails: pre-vote phase over, no election, term unchanged;
+        // votes counted and leadership taken without the WAL
+        vec![
+            (Ev::PreStart, false),
+            (Ev::Pvr { from: 1, t: 0, g: true }, true),
+            (Ev::Pvr { from: 2, t: 0, g: true }, true),
+            (Ev::PreStart, false),
+            (Ev::Pvr { from: 1, t: 0, g: true }, false),
+            (Ev::Pvr { from: 2, t: 0, g: true }, false),
+            (Ev::Rvr { from: 1, t: 1, g: true }, true),
+            (Ev::Rvr { from: 2, t: 1, g: true }, true),
+        ],
+        // leadership transfer while the WAL fails
+        vec![(ae(1, 2, 0, 0, &[]), false), (Ev::TNow { from: 2, t: 1, l: 2 }, true), (Ev::TNow { from: 2, t: 1, l: 2 }, false)],
         // heartbeat / duplicate while the WAL fails: nothing to write, ordinary success
         vec![(ae(1, 2, 0, 0, &[(1, 11), (1, 12)]), false), (ae(1, 2, 0, 0, &[(1, 11)]), true), (ae(1, 2, 2, 1, &[]), true)],
     ];
@@ -1455,9 +1519,8 @@ fn fail_scripts() -> Vec<(Vec<Ev>, Vec<bool>)> {
 
 // ---------------------------------------------------------------- size limit / rotation
 
-/// Candidate finding, pending the coordinator's decision: reported through `observe` (not `violation`)
-/// unless the harness runs with `--fixed-rotation` (areas/C10.json `harness_args`, to be added when
-/// /verif/proposed/C10-wal-no-rotation.diff is applied: a node-level loss is then a violation).
+/// Fixed by c45da25c (`RaftNode::with_wal` opens its WAL with auto_rotate = false). A node whose WAL is
+/// rotated away again is reported under this class.
 const ROTATION_CLASS: &str = "tensor_chain.raft_wal.rotate/restart_ignores_rotated_segments";
 
 fn hex_or_dash(b: &[u8]) -> String {
@@ -1487,27 +1550,23 @@ fn wal_files_tok(path: &Path) -> String {
 }
 
 fn report_rotation(cx: &mut Ctx, what: &str, input: Value) {
-    if cx.fixed_rotation && input["level"] == "RaftNode::with_wal" {
-        cx.rep.violation(ROTATION_CLASS, what, input);
-    } else if !cx.rot_observed {
-        cx.rot_observed = true;
-        cx.rep.observe(json!({"candidate_class": ROTATION_CLASS, "what": what, "input": input,
-            "note": "candidate finding, kept as an observation until the coordinator decides (first occurrence only; \
-                     see distribution rot.* for counts)"}));
-    }
+    cx.rep.violation(ROTATION_CLASS, what, input);
 }
 
-/// `RaftWal::open_with_config` with a small `max_size_bytes`: every append compared (live file and rotated
-/// files, byte for byte) with the model's `walAppend`; oracle: what `from_wal` recovers vs everything appended.
+/// `RaftWal::open_with_config` with a small `max_size_bytes`, with and without `auto_rotate`: every append
+/// compared (live file and rotated files, byte for byte; refusal) with the model's `walAppend`; oracle: as
+/// long as nothing was rotated, `from_wal` returns the state of exactly the accepted records.
 fn run_rot_raw(cx: &mut Ctx, r: &mut Rng, case_no: u64) {
     let dir = shm_dir();
     let path = dir.path().join("w.wal");
     let max = 30 + r.below(260);
     let maxrot = r.below(4) as usize;
+    let auto = r.chance(1, 2);
     let mut c = tensor_chain::raft_wal::WalConfig::default();
     c.max_size_bytes = max;
     c.max_rotated_files = maxrot;
-    cx.m.ask(&format!("wal_new {max} {maxrot}"));
+    c.auto_rotate = auto;
+    cx.m.ask(&format!("wal_new {max} {maxrot} {}", u8::from(auto)));
     let mut w = RaftWal::open_with_config(&path, c.clone()).unwrap();
     let n = 4 + r.below(20) as usize;
     let mut all: Vec<RaftWalEntry> = vec![];
@@ -1537,17 +1596,26 @@ fn run_rot_raw(cx: &mut Ctx, r: &mut Rng, case_no: u64) {
         let before_len = std::fs::metadata(&path).map(|m| m.len()).unwrap_or(0);
         let res = w.append(&rec);
         toks.push(rec_tok(&rec));
-        all.push(rec.clone());
         let imp = match &res {
             Ok(()) => wal_files_tok(&path),
+            Err(e) if e.to_string().contains("size limit") => "err size".to_string(),
             Err(e) => format!("err {e}"),
         };
+        if res.is_ok() {
+            all.push(rec.clone());
+        } else {
+            toks.push("(refused)".into());
+        }
         let mo = cx.m.ask(&format!("wal_append {}", hex(&payload)));
         let t = toks.clone();
-        cx.rep.compare("rot.append", || json!({"max": max, "maxrot": maxrot, "entries": t}), &imp, &mo);
+        cx.rep.compare("rot.append", || json!({"max": max, "maxrot": maxrot, "auto_rotate": auto, "entries": t}), &imp, &mo);
         if before_len + 8 + payload.len() as u64 > max {
-            rotated = true;
-            cx.rep.hit("rot.append.rotates");
+            if auto {
+                rotated = true;
+                cx.rep.hit("rot.append.rotates");
+            } else {
+                cx.rep.hit("rot.append.refused");
+            }
         } else {
             cx.rep.hit("rot.append.fits");
         }
@@ -1565,27 +1633,25 @@ fn run_rot_raw(cx: &mut Ctx, r: &mut Rng, case_no: u64) {
                     json!({"case": case_no, "max": max, "maxrot": maxrot, "entries": toks, "got": got, "want": want}),
                 );
             } else if !forgot {
+                // RaftWal level, auto_rotate chosen by the caller: what rotation means (the node does not
+                // choose it any more since c45da25c; the node-level regression case is rot.node)
                 forgot = true;
                 cx.rep.hit("rot.forgot_after_rotation");
-                report_rotation(
-                    cx,
-                    "RaftWal::append rotated the live file away (size limit); from_wal reads the live file only and no longer returns the state of the records appended before",
-                    json!({"case": case_no, "level": "RaftWal", "max_size_bytes": max, "max_rotated_files": maxrot, "entries": toks, "recovered": got, "state_of_all_appended": want}),
-                );
             }
         }
     }
     if !rotated {
         cx.rep.hit("rot.case.never_rotated");
     }
-    cx.rep.case("rot.raw", Some(&format!("{max}|{maxrot}|{}", toks.join(" "))));
+    cx.rep.case("rot.raw", Some(&format!("{max}|{maxrot}|{auto}|{}", toks.join(" "))));
 }
 
-/// The same on a real `RaftNode::with_wal` (1 GiB limit, not configurable there): the harness stands in
-/// for 1 GiB of earlier history by padding the live file with sparse filler frames (stored checksum 0,
-/// undecodable: replay stops at the first one), restarts the node (everything is still recovered —
-/// checked), lets it acknowledge one more entry (that append crosses the limit and rotates) and restarts
-/// it again.
+/// Directed regression case for c45da25c on a real `RaftNode::with_wal`: the harness stands in for
+/// 1 GiB of earlier history (the `WalConfig` default limit, which the node used before the fix) by padding
+/// the live file with sparse filler frames (stored checksum 0, undecodable: replay stops at the first
+/// one), restarts the node (everything is still recovered — checked) and lets it acknowledge one more
+/// entry. Before the fix that append rotated the live file away and the next restart had forgotten term,
+/// vote and log (then granted a second vote in the same term); now no `<wal>.1` may appear.
 fn run_rot_node(cx: &mut Ctx, r: &mut Rng, case_no: u64) {
     use std::io::{Seek, SeekFrom, Write};
     const MAX: u64 = 1024 * 1024 * 1024;
@@ -1598,7 +1664,7 @@ fn run_rot_node(cx: &mut Ctx, r: &mut Rng, case_no: u64) {
     let k = 1 + r.below(3);
     let ents: Vec<(u64, u64)> = (0..k).map(|_| (t, 1 + r.below(900))).collect();
     let extra = (t, 1 + r.below(900));
-    let mut lv = Live { node: mk_node(&path).expect("fresh wal"), in_pre: false };
+    let mut lv = Live { node: mk_node(&path).expect("fresh wal") };
     let mut history = vec![];
     let mut ghost = Ghost::default();
     let ev1 = Ev::Rv { t, c: c1, li: 0, lt: 0 };
@@ -1661,7 +1727,7 @@ fn run_rot_node(cx: &mut Ctx, r: &mut Rng, case_no: u64) {
             cx.rep.violation(&format!("tensor_chain.raft_wal.recover/{kind}"), &detail, json!({"case": case_no, "history": history, "at": "restart below the size limit"}));
         }
     }
-    let mut lv = Live { node: n1, in_pre: false };
+    let mut lv = Live { node: n1 };
     let r3 = apply_real(&mut lv, &ev3);
     history.push(json!({"ev": ev3.line(), "reply": r3}));
     if r3 == format!("append:{t}:1:{}", k + 1) {
@@ -1675,9 +1741,8 @@ fn run_rot_node(cx: &mut Ctx, r: &mut Rng, case_no: u64) {
     cx.rep.hit(if rotated_len > 0 { "rot.node.rotated" } else { "rot.node.not_rotated" });
     drop(lv);
     if rotated_len == 0 {
-        // the node's WAL does not rotate (what /verif/proposed/C10-wal-no-rotation.diff makes of it): the
-        // record went behind the harness' filler frames, where replay cannot see it by construction of
-        // the filler — nothing to judge here
+        // the node's WAL does not rotate: the record went behind the harness' filler frames, where replay
+        // cannot see it by construction of the filler — nothing more to judge here
         cx.rep.case("rot.node", Some(&format!("{t}|{c1}|{k}|{ents:?}|{extra:?}")));
         return;
     }
@@ -1691,7 +1756,7 @@ fn run_rot_node(cx: &mut Ctx, r: &mut Rng, case_no: u64) {
             let voted = probe_voted(&pn);
             let bad = ghost.check(term, &voted, &log);
             // the consequence the property names: a second candidate gets the vote of the same term
-            let mut lv2 = Live { node: n2, in_pre: false };
+            let mut lv2 = Live { node: n2 };
             let again = apply_real(&mut lv2, &Ev::Rv { t, c: c2, li: u64::MAX / 2, lt: u64::MAX / 2 });
             let double = again == format!("vote:{t}:1");
             if !bad.is_empty() {
@@ -1740,35 +1805,41 @@ fn main() {
         "snapshot.rejected_stale", "snapshot.rejected_invalid", "snapshot.script.gap", "snapshot.script.suffix_agrees",
         "snapshot.script.suffix_conflicts", "cut.mid_snapshot_install", "cut.mid_snapshot_install.some_entries_durable",
         "chain.crash_mid_install",
-        "rot.append.rotates", "rot.append.fits", "rot.case.never_rotated",
-        if args.extra.iter().any(|a| a == "--fixed-rotation") { "rot.node.not_rotated" } else { "rot.node.rotated" },
+        "rot.append.rotates", "rot.append.fits", "rot.append.refused", "rot.case.never_rotated", "rot.node.not_rotated",
         "fail.ev.term_record_path", "fail.ev.log_or_none_path", "fail.append_entries", "fail.propose",
         "fail.install_snapshot", "fail.elect", "fail.request_vote", "fail.vote_response",
         "reply.walfail",
+        "ev.start_pre_vote", "ev.pre_vote", "ev.timeout_now", "branch.election_by_prevote_quorum",
+        "branch.election_by_timeout_now", "branch.leader_by_vote_quorum", "fail.prevote_response", "fail.timeout_now",
     ]
     .iter()
     .map(|s| s.to_string())
     .collect();
-    if !args.extra.iter().any(|a| a == "--fixed-append") {
-        rep.expected_branches.push("fail.memory_log_changed_without_wal".to_string());
-        rep.expected_branches.push("fail.acked_entry_lost".to_string());
-    }
+
     let t_all_end = std::time::Instant::now();
     let mut m = Model::spawn(&args.driver);
     let root = Rng::new(args.seed);
     let thorough = args.thorough;
     {
-        let mut cx = Ctx { m: &mut m, rep: &mut rep, seen: HashSet::new(), thorough, rot_observed: false, walfail_observed: false, fixed_append: args.extra.iter().any(|a| a == "--fixed-append"), fixed_rotation: args.extra.iter().any(|a| a == "--fixed-rotation"), slow_budget: if thorough { 40 } else { 2 } };
+        let mut cx = Ctx { m: &mut m, rep: &mut rep, seen: HashSet::new(), thorough, slow_budget: if thorough { 40 } else { 2 } };
         let t_all = std::time::Instant::now();
+        // directed regression cases of the two fixed findings of this round run first
+        let mut r = root.fork("rot.node");
+        for i in 0..(if thorough { 6 } else { 2 }) {
+            run_rot_node(&mut cx, &mut r, 30_000 + i);
+        }
+        let mut rf = root.fork("fail");
+        cx.thorough = false;
+        for (i, (script, flags)) in fail_scripts().into_iter().enumerate() {
+            cx.rep.hit("fail.script.directed");
+            run_case(&mut cx, &mut rf, 40_000 + i as u64, if thorough { 2 } else { 1 }, Some(script), "fail", &FailCfg { scripted: flags, prob: 25 });
+        }
+        cx.thorough = thorough;
+        if std::env::var("C10_TIMES").is_ok() { eprintln!("before raw {:?}", t_all.elapsed()); }
         let mut r = root.fork("raw");
         let n_raw = if thorough { 1500 } else { 150 };
         for i in 0..n_raw {
             run_raw(&mut cx, &mut r, i);
-        }
-        if std::env::var("C10_TIMES").is_ok() { eprintln!("before rot.node {:?}", t_all.elapsed()); }
-        let mut r = root.fork("rot.node");
-        for i in 0..(if thorough { 6 } else { 2 }) {
-            run_rot_node(&mut cx, &mut r, 30_000 + i);
         }
         if std::env::var("C10_TIMES").is_ok() { eprintln!("before rot.raw {:?}", t_all.elapsed()); }
         let mut r = root.fork("rot.raw");
@@ -1785,14 +1856,9 @@ fn main() {
             run_case(&mut cx, &mut r, 10_000 + i, 2, Some(script), "snapshot", &FailCfg::none());
         }
         if std::env::var("C10_TIMES").is_ok() { eprintln!("before fail {:?}", t_all.elapsed()); }
-        let mut r = root.fork("fail");
         cx.thorough = false;
-        for (i, (script, flags)) in fail_scripts().into_iter().enumerate() {
-            cx.rep.hit("fail.script.directed");
-            run_case(&mut cx, &mut r, 40_000 + i as u64, if thorough { 2 } else { 1 }, Some(script), "fail", &FailCfg { scripted: flags, prob: 25 });
-        }
         for i in 0..(if thorough { 300 } else { 8 }) {
-            run_case(&mut cx, &mut r, 41_000 + i, 2, None, "fail", &FailCfg { scripted: vec![], prob: 30 });
+            run_case(&mut cx, &mut rf, 41_000 + i, 2, None, "fail", &FailCfg { scripted: vec![], prob: 30 });
         }
         probe_codebook(&mut cx);
         if std::env::var("C10_TIMES").is_ok() { eprintln!("before chain {:?}", t_all.elapsed()); }
